@@ -13,6 +13,20 @@ for m in specs.MUTANTS + getattr(specs, 'BENIGN', []):
     out = []
     ok = True
     files = {}
+    if m.get("patch"):
+        src = os.path.join(VERIF, m["patch"])
+        if not os.path.exists(src):
+            print("!! %s/%s: patch file %s missing" % (m["prop"], m["name"], m["patch"]))
+            continue
+        d = os.path.join(VERIF, "selftest", "mutants", m["prop"])
+        os.makedirs(d, exist_ok=True)
+        with open(os.path.join(d, m["name"] + ".diff"), "w") as fh:
+            fh.write("# desc: %s\n" % m["desc"])
+            for e in m["expect"]:
+                fh.write("# expect: %s\n" % e)
+            fh.write(open(src).read())
+        n += 1
+        continue
     for (f, old, new) in m["edits"]:
         src = files.get(f) or open(os.path.join(REPO, f)).read()
         if src.count(old) != 1:
